@@ -19,8 +19,8 @@ def run(res, tier, lean, prop="C01", proof_breaks=(), build_log=""):
                        "recursive and non-recursive, normal and full emitters, str and bytes roots; each history replayed in "
                        "WD.Pipe and judged; non-trivial = the history delivered at least one event")
     hists = [(i, o) for i, o in pipe.FIXED]
-    outside = prop == "C07"     # C07 quantifies over operations on entries that have left the tree, too
-    if outside:
+    outside = True              # nothing outside the tree is watched (D2 repaired): operations there must stay silent
+    if True:
         hists += [
             ([("mkdir", "W/d")], [("rename", "W/d", "O/x"), ("mkdir", "W/d"), ("rmdir", "W/d"), ("rmdir", "O/x"), ("create", "W/a")]),
             ([("mkdir", "W/d"), ("mkdir", "W/d/dd")], [("rename", "W/d", "O/x"), ("create", "O/x/a"), ("rmtree", "O/x"), ("mkdir", "W/d")]),
@@ -50,6 +50,14 @@ def run(res, tier, lean, prop="C01", proof_breaks=(), build_log=""):
             res.bump("recursive" if recursive else "non_recursive")
             res.bump("operations", len(result["applied"]))
     outs = lean.run(lines)
+    # the theorems' statements evaluated on the very histories that were run (invariant after every operation,
+    # per-operation contract, replay): instances of proved statements, recorded as a cross-check of the driver
+    spec = lean.run([l.replace("pipe ", "pipespec ", 1) for l in lines])
+    res.notes["spec_instances"] = {"histories": len(spec), "inv": sum("inv=1" in o for o in spec),
+                                   "contract": sum("contract=1" in o for o in spec), "replay": sum("replay=1" in o for o in spec)}
+    if any("inv=0" in o or "contract=0" in o or "replay=0" in o or "crashed=1" in o for o in spec):
+        raise RuntimeError("the compiled model contradicts a proved theorem (driver/compiler problem?): " +
+                           next(l for l, o in zip(lines, spec) if "=0" in o.replace("crashed=0", "").replace("stopped=0", "")))
     res.notes["histories_all_ops_valid_in_model"] = sum(1 for o in outs if "valid=1" in o)
     res.notes["histories_replayed"] = len(outs)
     invalid = [(l, o) for l, o in zip(lines, outs) if "valid=0" in o]
